@@ -219,6 +219,7 @@ func (fr *Frame) inlineCall(st *State, fn *ssa.Function, bindings []*Val, args [
 func (fr *Frame) havocCall(st *State, args []*Val, sig *types.Signature) []*Val {
 	x := fr.x
 	fr.havocArgs(st, args)
+	x.bumpAllocTop(st)
 	var res []*Val
 	if sig != nil {
 		for i := 0; i < sig.Results().Len(); i++ {
@@ -413,6 +414,8 @@ func (fr *Frame) callWithContract(st *State, c *FuncContract, fn *ssa.Function, 
 			}
 		}
 	}
+	// the callee may have allocated
+	x.bumpAllocTop(st)
 	// results
 	var res []*Val
 	rn := resultNames(sig, c)
